@@ -80,6 +80,16 @@ def cases(tier):
                 add("golomb", [n], {"cfg": "bc", "sym": sym, "custom_alg": True}, optimum=GOLOMB[n])
         if n <= 5:
             add("golomb", [n], {"cfg": "shaving", "sym": True}, optimum=GOLOMB[n])
+    for marks in ([0, 1, 4, 9, 11], [0, 1, 4, 10, 12, 17], [0, 1, 6, 10, 23, 26, 34, 41, 53, 55], [0, 1, 4, 13, 28, 33, 47, 54, 64, 70, 72],
+                  [0, 2, 6, 24, 29, 40, 43, 55, 68, 75, 76, 85], [0, 2, 5, 25, 37, 43, 59, 70, 85, 89, 98, 99, 106]):
+        for sym in (True, False):
+            add("golomb_accept", [marks], {"cfg": "bc", "sym": sym}, count=1)
+    for n, L in ((4, 9), (5, 16)) + (((5, 20), (6, 24)) if th else ((5, 20),)):
+        for sym in (True, False):
+            add("golomb_enum", [n, L], {"cfg": "bc", "sym": sym}, reference=True, group=f"golomb-enum{n}-{L}-{sym}")
+            if L <= 16:
+                add("golomb_enum", [n, L], {"cfg": "smallest-mid", "sym": sym}, reference=True, group=f"golomb-enum{n}-{L}-{sym}")
+                add("golomb_enum", [n, L], {"cfg": "bc", "sym": sym, "custom_alg": True}, reference=True, group=f"golomb-enum{n}-{L}-{sym}")
     add("bibd", [6, 10, 5, 3, 2], {"cfg": "bc", "sym": True}, count=1)
     add("bibd", [7, 7, 3, 3, 1], {"cfg": "bc", "sym": True}, count=1)
     add("bibd", [7, 7, 3, 3, 1], {"cfg": "bc", "sym": False, "limit": 200}, min_count=200)
@@ -156,7 +166,7 @@ def run(tier, seed):
         acc.c["cases"] += 1
         acc.c["solutions_validated"] += r.get("count", 1 if r.get("optimum") is not None else 0)
         w = {"case": case, "result": {k: v for k, v in r.items() if k != "case"}, "expected": {k: v for k, v in exp.items() if k not in ("group", "symgroup")}}
-        key0 = f"{model}:{'x'.join(map(str, case[1])) if model not in ('tsp', 'sudoku', 'knapsack') else len(case[1][0])}"
+        key0 = f"{model}:{'x'.join(map(str, case[1])) if model not in ('tsp', 'sudoku', 'knapsack', 'golomb_accept') else len(case[1][0])}"
         if "error" in r:
             acc.violation(f"{key0}:error", w, "the shipped model could not be solved")
             continue
@@ -201,7 +211,7 @@ def run(tier, seed):
         "states": n, "transitions": acc.c["solutions_validated"], "traces_validated_against_impl": n,
         "cases": n, "exhaustive": True,
         "bounds": f"tier={tier}: queens 1..{10 if tier == 'thorough' else 8}, latin 1..4 (two models), idempotent quasigroup 1..5 (6), quasigroup5 5..{9 if tier == 'thorough' else 8}, "
-                  "magic square 2..4, magic sequence 1..12 (30), Golomb 4..7 (8), BIBD, Schur 3..9 (11) + 13,14, STS 4,6 (8), circuit 2..8 (9), clustered 8-town TSP, "
+                  "magic square 2..4, magic sequence 1..12 (30), Golomb 4..7 (8) + known optimal rulers of 5-13 marks accepted + all rulers of 4-5 (6) marks up to a length, BIBD, Schur 3..9 (11) + 13,14, STS 4,6 (8), circuit 2..8 (9), clustered 8-town TSP, "
                   "knapsack, TSP 4-6 cities (+GR17), sudoku, donald, alpha; 1..3 processes on queens / latin / magic",
     }
     return finish(PROP, tier, seed, "exploration", acc, cov,
